@@ -14,18 +14,25 @@ class Kernel:
         self.real_only = real_only
         self.has_passive_stmt = has_passive_stmt
         self.features = features
+        self.dims = None          # optional: active argument name -> [(lo, hi), ...] (default: the global window)
+        self.sections = False     # kernel of the array-notation stream
 
     def payload(self):
         return {"src": self.src, "active": self.active, "locals": self.locals,
                 "passive_vals": {k: (v if isinstance(v, int) else {str(i): x for i, x in v.items()})
                                  for k, v in self.passive_vals.items()},
-                "arrays1": self.arrays1, "arrays2": self.arrays2, "scalars": self.scalars}
+                "arrays1": self.arrays1, "arrays2": self.arrays2, "scalars": self.scalars,
+                "dims": self.dims, "sections": self.sections}
 
     @staticmethod
     def from_payload(p):
         pv = {k: (v if isinstance(v, int) else {int(i): x for i, x in v.items()}) for k, v in p["passive_vals"].items()}
-        return Kernel(p["src"], p["active"], p.get("locals", []), pv, p.get("arrays1", []), p.get("arrays2", []),
-                      p.get("scalars", []), False, True, [])
+        k = Kernel(p["src"], p["active"], p.get("locals", []), pv, p.get("arrays1", []), p.get("arrays2", []),
+                   p.get("scalars", []), False, True, [])
+        if p.get("dims"):
+            k.dims = {n: [tuple(d) for d in ds] for n, ds in p["dims"].items()}
+        k.sections = bool(p.get("sections"))
+        return k
 
 
 class KGen:
@@ -311,3 +318,142 @@ def refused_kernel(rng):
            "  real, intent(in) :: p\n  integer, intent(in) :: n1\n  integer :: i, j\n  real :: p2\n"
            f"  do i = 1, n1\n{pre}  {stmt}\n  end do\nend subroutine tl_kern\nend module tl_mod\n")
     return what, src, ["a", "b", "c", "s"]
+
+
+# ---------------------------------------------------------------------------
+# array-notation stream: assignments to array sections.  Sections whose strides differ between
+# the references stay in array notation after preprocess_trans (ArrayAssignment2LoopsTrans refuses
+# them) and reach AssignmentTrans._array_ranges_match; equal strides are lowered to loops.
+class SecGen:
+    N1, N2 = 10, 6          # a(10,6), b(10,6): rank 2;  c(10), e(10): rank 1;  cf(10) passive
+
+    def __init__(self, rng):
+        self.r = rng
+
+    def section(self, n, extent, avoid_step=None):
+        """`lo:hi:st` with n elements inside 1..extent"""
+        r = self.r
+        cands = [(lo, st) for st in (1, 2, 3) for lo in range(1, extent + 1)
+                 if lo + (n - 1) * st <= extent and st != avoid_step]
+        if not cands:
+            cands = [(lo, st) for st in (1, 2, 3) for lo in range(1, extent + 1) if lo + (n - 1) * st <= extent]
+        lo, st = r.choice(cands)
+        hi = lo + (n - 1) * st
+        return f"{lo}:{hi}" + (f":{st}" if st != 1 else ""), st
+
+    def scalar_index(self, other=None):
+        r = self.r
+        c = ["j", "k", "1", "j + 1", str(r.randint(2, 5))]
+        if other is not None:
+            c = [x for x in c if x != other]
+        return r.choice(c)
+
+    def coef(self):
+        r = self.r
+        return r.choice(["2.0", "3.0", "p", "4.0", "p * 2.0"])
+
+    def statement(self):
+        """one array-section assignment; returns (text, feature)"""
+        r = self.r
+        shape = r.choice(["col", "col", "row", "vec", "full"])
+        if shape in ("col", "full"):
+            n = r.choice([3, 4, 5])
+            sec, st = self.section(n, self.N1)
+            sidx = self.scalar_index() if shape == "col" else ":"
+            lhs = lambda arr, s2=sec, i2=sidx: f"{arr}({s2}, {i2})"       # noqa: E731
+        elif shape == "row":
+            n = r.choice([2, 3])
+            sec, st = self.section(n, self.N2)
+            sidx = self.scalar_index().replace("j + 1", "j")
+            lhs = lambda arr, s2=sec, i2=sidx: f"{arr}({i2}, {s2})"       # noqa: E731
+        else:
+            n = r.choice([3, 4, 5])
+            sec, st = self.section(n, self.N1)
+            sidx = None
+            lhs = lambda arr, s2=sec: f"{arr}({s2})"                      # noqa: E731
+        larr = r.choice(["c", "e"]) if shape == "vec" else r.choice(["a", "b"])
+        terms, feat = [], shape
+        # occurrences of the LHS array on the RHS: identical ranges; same or different scalar subscript
+        x = r.random()
+        if x < 0.35:
+            terms.append((r.choice(["", "", self.coef() + " * "]) + lhs(larr)))
+            feat += "+same-index-increment"
+        elif x < 0.75 and sidx not in (None, ":"):
+            other = self.scalar_index(other=sidx)
+            if shape == "row":
+                other = other.replace("j + 1", "k" if sidx != "k" else "1")
+            ref = f"{larr}({sec}, {other})" if shape == "col" else f"{larr}({other}, {sec})"
+            terms.append(r.choice(["", self.coef() + " * "]) + ref)
+            feat += "+shifted-index"
+        # other arrays; the first one gets a stride different from the LHS so the statement survives preprocessing
+        others = [a for a in (["a", "b"] if larr in "ab" else ["c", "e"]) if a != larr] + (["c", "e"] if larr in "ab" else ["a", "b"])
+        for t in range(r.choice([1, 1, 2])):
+            arr = others[t % len(others)] if r.random() < 0.8 else r.choice(others)
+            keep = r.random() < 0.25 and t > 0
+            if arr in ("a", "b"):
+                if r.random() < 0.7 or shape == "full":
+                    s2, _ = self.section(n, self.N1, None if keep else st)
+                    ref = f"{arr}({s2}, {':' if shape == 'full' else self.scalar_index()})"
+                else:
+                    if n > 3:
+                        s2, _ = self.section(n, self.N1, None if keep else st)
+                        ref = f"{arr}({s2}, {self.scalar_index()})"
+                    else:
+                        s2, _ = self.section(n, self.N2, None if keep else st)
+                        ref = f"{arr}({self.scalar_index().replace('j + 1', 'j')}, {s2})"
+            else:
+                if shape == "full":
+                    continue
+                s2, _ = self.section(n, self.N1, None if keep else st)
+                ref = f"{arr}({s2})"
+            c = self.coef()
+            if r.random() < 0.3 and shape != "full":
+                s3, _ = self.section(n, self.N1)
+                c = f"cf({s3})"
+            terms.append(f"{c} * {ref}")
+        if not terms:
+            terms = ["0.0"]
+        r.shuffle(terms)
+        text = terms[0]
+        for t in terms[1:]:
+            text += r.choice([" + ", " + ", " - "]) + t
+        return f"{lhs(larr)} = {text}", feat
+
+    def kernel(self):
+        r = self.r
+        feats = set()
+        body = []
+        loop_j = r.random() < 0.3
+        ind = "    " if loop_j else "  "
+        if loop_j:
+            body.append("  do j = 1, 5")
+            feats.add("section-in-loop")
+        for _ in range(r.choice([1, 1, 2])):
+            st, f = self.statement()
+            if loop_j and ", :)" in st:
+                st = st.replace(", :)", ", j)")
+            feats.add(f)
+            body.append(ind + st)
+            if r.random() < 0.4:
+                i1, i2 = r.randint(1, 10), r.randint(1, 10)
+                body.append(f"{ind}c({i1}) = c({i1}) + {self.coef()} * e({i2})")
+        if loop_j:
+            body.append("  end do")
+        args = ["a", "b", "c", "e", "p", "cf", "k"] + ([] if loop_j else ["j"])
+        decl = [f"  real, intent(inout) :: a({self.N1},{self.N2}), b({self.N1},{self.N2}), c({self.N1}), e({self.N1})",
+                f"  real, intent(in) :: p, cf({self.N1})",
+                "  integer, intent(in) :: k" + ("" if loop_j else ", j")]
+        if loop_j:
+            decl.append("  integer :: j")
+        src = ("module tl_mod\n  implicit none\ncontains\nsubroutine tl_kern(" + ", ".join(args) + ")\n"
+               + "\n".join(decl) + "\n" + "\n".join(body) + "\nend subroutine tl_kern\nend module tl_mod\n")
+        jv = r.randint(1, 5)
+        kv = r.choice([x for x in range(1, 6) if x != jv])
+        pv = {"p": r.randint(-3, 3), "k": kv, "cf": {i: r.randint(-2, 3) for i in range(1, self.N1 + 1)}}
+        if not loop_j:
+            pv["j"] = jv
+        kern = Kernel(src, ["a", "b", "c", "e"], [], pv, ["c", "e"], ["a", "b"], [], False, False, sorted(feats))
+        kern.dims = {"a": [(1, self.N1), (1, self.N2)], "b": [(1, self.N1), (1, self.N2)],
+                     "c": [(1, self.N1)], "e": [(1, self.N1)]}
+        kern.sections = True
+        return kern
